@@ -27,21 +27,22 @@ Proof.
 Qed.
 
 Lemma many_refs_l : exists def retrieve val ts,
-  wf def retrieve val ts /\ has_text ts = true /\ nrefs ts = 1000 /\
+  wf def retrieve val ts /\ plain val ts /\ has_text ts = true /\ nrefs ts = 1000 /\
   resolve_string def retrieve (flatten ts) = Err [ETooMany].
 Proof. exists w_def, w_retrieve, w_val, (w_tokens 1000). exact many_refs_refused. Qed.
 
 Lemma escaped_ref_kept_l def retrieve val pre n post :
-  wf def retrieve val (pre ++ esc_ref n ++ post) -> nrefs (pre ++ esc_ref n ++ post) < 1000 ->
+  wf def retrieve val (pre ++ esc_ref n ++ post) -> plain val (pre ++ esc_ref n ++ post) ->
+  nrefs (pre ++ esc_ref n ++ post) < 1000 ->
   resolve_string def retrieve (flatten pre ++ cDollar :: ref_text n ++ flatten post)
   = Ok (CStr (sem val pre ++ ref_text n ++ sem val post)).
 Proof.
-  intros Hwf Hn.
+  intros Hwf Hp Hn.
   assert (E1 : flatten pre ++ cDollar :: ref_text n ++ flatten post = flatten (pre ++ esc_ref n ++ post)).
   { rewrite !flatten_app, flatten_esc_ref. reflexivity. }
   assert (E2 : sem val pre ++ ref_text n ++ sem val post = sem val (pre ++ esc_ref n ++ post)).
   { rewrite !sem_app, sem_esc_ref. reflexivity. }
-  rewrite E1, E2. apply tokens_main; [exact Hwf| |exact Hn].
+  rewrite E1, E2. apply tokens_main; [exact Hwf|exact Hp| |exact Hn].
   left. unfold has_text. rewrite !existsb_app. unfold esc_ref. cbn [existsb is_ref negb].
   rewrite orb_true_r. reflexivity.
 Qed.
